@@ -86,4 +86,8 @@ def stages(tier, rng, only=None):
                                                              flags=(0,)), _nt))
         out.append(ac.stage("grid4x2", PID, lambda: ac.cases(grids.datasets(4, 2), ["BioConsert", "BioCo"], SCHEMES,
                                                              flags=(0,)), _nt))
+    # scores in the hundreds and thousands with moves that gain 2/1024: a stopping rule relative to the score shows here
+    out.append(ac.stage("larger_fine", PID, lambda: ac.cases(
+        [ac.larger_dataset(rng, 10, 25) for _ in range(n_rand // 6)],
+        ["BioConsert", "BioCo", "Bio[Copeland,KwikSort]"], FINE), _nt))
     return [s for s in out if not only or s.name == only]
